@@ -15,13 +15,14 @@ func init() {
 		Run:   checkC02,
 		Explanation: "Mutual exclusion across processes is a statement about time (TTL vs. refresh) and the store and is not decided. Decided are the structural necessary conditions on each instance: (R1) the claim is set only on the success edge of the instance's own Create/Update, with exactly that operation's revision and the token written in that operation's payload; " +
 			"(R2) the claim is set inside a write-locked section of the election mutex and, inside that section, only after a run-liveness test (context not nil and not cancelled, or state != STOPPED) - Stop clears the claim and cancels under the same mutex, so no claim can appear after Stop; " +
-			"(R3) on shutdown the claim is cleared before the key is deleted (C01-R6); (R4) there is exactly one claim-set unit and the claim never receives a non-constant value.",
+			"(R3) on shutdown the claim is cleared before the key is deleted (C01-R6); (R4) there is exactly one claim-set unit and the claim never receives a non-constant value; (R5) the claim is the last thing the claim-set unit publishes: IsLeader(), Token() and LeaderID() are lock-free, and a reader that sees the claim must see the token and revision of that term (the second sentence of C02, and the watcher's stale-event filter).",
 		NotDecided: []string{"at most one IsLeader()==true across instances at every instant (needs TTL/latency reasoning and the store's semantics)", "that the live record names the claimant at every instant (C03 bounds the window)"},
 		Assumptions: []string{"a successful Create/Update means the record names this instance with this token (C14)"},
 		Rules: map[string]string{
 			"R1": "every call site of a claim-set unit is guarded by (err of a KeyValue Create/Update in this activation) == nil; its revision argument has origin ownwrite of that call; its token argument has the same origins as payload.Token of that call's value argument",
 			"R2": "claim Store(true) has the election mutex (write) in its must-lockset and is guarded by a run-liveness literal established in the same function",
 			"R3": "see C01-R6 (claim Store(false) dominates Delete)",
+			"R5": "in the claim-set unit the atomic stores of the token, revision and leader-id fields dominate the claim Store(true) (sequentially consistent atomics: a lock-free reader that sees the claim sees the term's values)",
 			"R4": "exactly one function stores true to the claim; every store to the claim is a constant",
 		},
 	})
@@ -212,6 +213,9 @@ func checkC02(c *Ctx) {
 		})
 	}
 
+	// ---- R5: the claim is published last ------------------------------------------------------
+	claimPublishedLastRule(c, "R5")
+
 	// ---- R3 (shared with C01-R6) --------------------------------------------------------
 	for _, op := range m.StoreOps() {
 		if op.Method != "Delete" {
@@ -242,4 +246,35 @@ func derivesFromParam(v ssa.Value, p *ssa.Parameter) bool {
 		}
 	}
 	return false
+}
+
+
+// claimPublishedLastRule (C02-R5, shared as C05-R5): the stores of token, revision and leader id
+// dominate the claim Store(true).
+func claimPublishedLastRule(c *Ctx, rule string) {
+	m := c.M
+	for _, unit := range m.ClaimSet {
+		var claim ssa.Instruction
+		eachInstr(unit, func(in ssa.Instruction) {
+			if val, isConst, ok := m.claimStore(in); ok && isConst && val {
+				claim = in
+			}
+		})
+		if claim == nil {
+			c.undecided(rule, "claim store in "+shortFn(unit), firstInstr(unit), "not found")
+			continue
+		}
+		for _, fld := range []struct{ name, f string }{{"token", m.Token}, {"revision", m.Revision}, {"leader id", m.LeaderID}} {
+			var st ssa.Instruction
+			eachInstr(unit, func(in ssa.Instruction) {
+				if call, ok := in.(*ssa.Call); ok {
+					if g, _, ok := m.atomicStore(call); ok && g == fld.f {
+						st = in
+					}
+				}
+			})
+			c.check(st != nil && dominatesInstr(st, claim), rule, "the "+fld.name+" of the term is published before the claim in "+shortFn(unit), claim,
+				"the store of %s dominates the claim Store(true): %v. IsLeader(), Token(), LeaderID() and the watcher's revision filter read these fields without the mutex: with the claim stored first a reader sees IsLeader()==true together with the previous term's (or no) %s.", m.path(fld.f), st != nil && dominatesInstr(st, claim), fld.name)
+		}
+	}
 }
